@@ -222,10 +222,18 @@ Proof.
     unfold holders; cbn; rewrite ?map_app, !in_app_iff; cbn.
   - destruct (fut_get m (futs s)) as [x|] eqn:E.
     + injection Hm as ->. destruct (P m E) as [H|[]]. unfold holders in H. rewrite Hap in H. cbn in H. rewrite !in_app_iff in H. tauto.
-    + destruct (nextn s =? m) eqn:En; [|discriminate]. apply N.eqb_eq in En. Show. left; left; exact En.
+    + destruct (nextn s =? m) eqn:En; [|discriminate]. apply N.eqb_eq in En. left; exact En.
   - destruct (fut_get m (futs s)) as [x|] eqn:E.
     + injection Hm as ->. destruct (P m E) as [H|[]]. unfold holders in H. rewrite Hap in H. cbn in H. rewrite !in_app_iff in H. tauto.
-    + destruct (nextn s =? m) eqn:En; [|discriminate]. apply N.eqb_eq in En. right; left. right. left; exact En.
+    + destruct (nextn s =? m) eqn:En; [|discriminate]. apply N.eqb_eq in En. tauto.
+Qed.
+
+Lemma holders_set_sp X y m :
+  (forall a b, sp X <> SDispFailing a b) -> (forall a b, y <> SDispFailing a b) ->
+  In m (holders X) -> In m (holders (set_sp X y)).
+Proof.
+  intros H1 H2. unfold holders; cbn. rewrite !in_app_iff. intros [H|[H|[H|H]]]; auto.
+  destruct (sp X) eqn:E; try (destruct H; fail). exfalso. eapply H1; reflexivity.
 Qed.
 
 Ltac holders_frame s :=
@@ -248,5 +256,24 @@ Proof.
   all: try (apply px_put_cmd; [rewrite pop_store; exact Hnd|apply px_pop; auto]).
   all: try (apply px_failing; [cbn; rewrite pop_sp; assumption| apply px_put; [rewrite pop_store; exact Hnd|apply px_pop; auto]]).
   all: try (apply px_qtimeout with (b := b); auto).
-  all: match goal with |- ?G => idtac "LEFT" G end.
-Abort.
+  (* Stop returned *)
+  all: try (match goal with |- context [if ?c then _ else _] => destruct c end;
+            [ apply inv_pend_stop_clear; [holders_frame s|reflexivity|reflexivity] | holders_frame s ]).
+  (* a command is issued *)
+  all: try (match goal with Ea : ap ?s0 = ANone, P0 : inv_pend ?s0 |- _ => exact (proj2 (px_call s0 _ _ Ea P0 eq_refl)) end).
+  all: try (match goal with Ea : ap ?s0 = ANone, P0 : inv_pend ?s0 |- _ => exact (proj1 (px_call s0 _ _ Ea P0 eq_refl)) end).
+  (* resubscribe request *)
+  all: try (match goal with |- inv_pend (set_sp (put_entry ?X ?i ?en) ?y) =>
+            apply (px_frame [] (put_entry X i en)); [reflexivity| |apply px_put; [exact Hnd|holders_frame s]];
+            intros m; apply holders_set_sp; cbn; discriminate end).
+  (* QoS 0 publish: stored, sent, completed, removed *)
+  all: try (match goal with |- inv_pend (set_store (set_futs ?S2 ?F) _) =>
+            apply (px_del [] (set_futs S2 F) id);
+            [ cbn; apply store_put_keys; rewrite pop_store; exact Hnd
+            | cbn; intros m; rewrite store_get_put, N.eqb_refl; discriminate
+            | apply px_resolve; [discriminate| apply px_put; [rewrite pop_store; exact Hnd|apply px_pop; auto]] ] end).
+  (* the client call failed without sending *)
+  all: try (match goal with |- inv_pend (set_sp ?X ?y) =>
+            apply (px_frame [] X); [reflexivity| |apply px_resolve; [discriminate|apply px_pop; auto]];
+            intros m; apply holders_set_sp; cbn; [rewrite pop_sp; rw_ctl; discriminate|discriminate] end).
+Qed.
